@@ -57,6 +57,11 @@ def programs():
     out["for-body-only-assign"] = pre + [("for", "i", "0", "3", [R("t := i")]), ("block", [R("bl:"), R(".dw v"), R(".dl bl")])] + post
     out["for-nested-inner-empty"] = pre + [("for", "i", "0", "3", [("for", "j", "0", "i - 1", [R(".db j")])]), ("scope", "ns", [R("sl:"), R(".db v")]), R(".dl ns.sl")] + post
     out["if-false-without-else-then-scopes"] = pre + [("block", [("if", "c", [R(".db 1")], None)]), ("block", [R("bl:"), R(".dl bl")])] + post
+    out["if-empty-then"] = pre + [("if", "c", [], [R(".db 2")]), R(".db 3")] + post
+    out["if-comment-only-then"] = pre + [("if", "c", [R("; nothing here")], [R(".dw 2")]), R(".db 3")] + post
+    out["if-empty-else"] = pre + [("if", "c", [R(".db 1")], []), R(".db 3")] + post
+    out["if-both-empty"] = pre + [("if", "c", [], []), R(".db 3")] + post
+    out["if-empty-then-in-macro-in-loop"] = pre + [("macrodef", "mm", ["x"], [("if", "x", [], [R(".db 0xAA")]), R(".db x")]), ("for", "i", "0", "b2", [("call", "mm", [("expr", "i")])])] + post
     out["for-in-if"] = pre + [("if", "c", [("for", "i", "0", "b2", [R(".db i")])], [R(".db 7")])] + post
     out["for-empty-then-code"] = pre + [("for", "i", "3", "b2", [R(".db i")]), R(".db 0x55")] + post
     return out
